@@ -233,24 +233,31 @@ theorem selfIface_cycle (cfg : Cfg) (ht : cfg.trackPtrLike = true) (fuel depth :
   unfold marshal
   simp [selfIface, consults, pointsToPtrLike, isPtrLike, isIface, kindOf, Kind.tracked, ht]
 
-/-! ### the `[]` / `{}` shortcut at the depth limit -/
+/-! ### the `[]` / `{}` shortcuts at the depth limit -/
 
-/-- With the `AtMaxDepth` guard, a container met at `Depth() = max+1` is never written: the result is
-the cycle error (if the visited set already holds it) or errMaxDepth — also when it is empty. -/
-theorem container_at_limit_refused (cfg : Cfg) (g : Heap) (hg : cfg.guardEmpty = true)
-    (fuel : Nat) (seen : List Nat) (n : Nat) (nd : Node) (hn : g[n]? = some nd) (hk : nd.kind.deepens = true) :
+/-- If every shortcut that applies to the kind carries the `AtMaxDepth` guard, a container met at
+`Depth() = max+1` is never written: the result is the cycle error (if the visited set already holds it)
+or errMaxDepth — also when it is empty. -/
+theorem container_at_limit_refused (cfg : Cfg) (g : Heap)
+    (fuel : Nat) (seen : List Nat) (n : Nat) (nd : Node) (hn : g[n]? = some nd) (hk : nd.kind.deepens = true)
+    (hg : cfg.shortcut nd.kind = true → cfg.guarded nd.kind = true) :
     marshal cfg g (fuel + 1) (cfg.max + 1) seen n =
       if consults cfg g nd (cfg.max + 1) = true ∧ n ∈ seen then .cycle else .maxDepth := by
   unfold marshal
   have hs : nd.kind ≠ .scalar := by intro h; simp [h, Kind.deepens] at hk
-  simp [hn, hk, hg, hs]
+  cases hsc : cfg.shortcut nd.kind with
+  | false => simp [hn, hk, hs, hsc]
+  | true => simp [hn, hk, hs, hsc, hg hsc]
 
-/-- Without the guard (the code before c2b1a73) an empty slice or map at `Depth() = max+1` is written. -/
-theorem old_shortcut_accepts (cfg : Cfg) (g : Heap) (hg : cfg.guardEmpty = false)
+/-- A shortcut WITHOUT the guard writes an empty container at `Depth() = max+1`
+(slices/maps before c2b1a73; a fast path for member-less structs that forgets the guard). -/
+theorem unguarded_shortcut_accepts (cfg : Cfg) (g : Heap)
     (fuel : Nat) (seen : List Nat) (n : Nat) (nd : Node) (hn : g[n]? = some nd)
-    (hk : nd.kind = .slice ∨ nd.kind = .map) (he : nd.succ = []) (hs : n ∉ seen) :
+    (hk : nd.kind.deepens = true) (hsc : cfg.shortcut nd.kind = true) (hg : cfg.guarded nd.kind = false)
+    (he : nd.succ = []) (hs : n ∉ seen) :
     marshal cfg g (fuel + 1) (cfg.max + 1) seen n = .ok := by
   unfold marshal
-  rcases hk with hk | hk <;> simp [hn, hk, he, hg, hs, Kind.deepens]
+  have hsk : nd.kind ≠ .scalar := by intro h; simp [h, Kind.deepens] at hk
+  simp [hn, hk, he, hsc, hg, hs, hsk]
 
 end JsonV.Lemmas.DepthCycleL
